@@ -4,6 +4,7 @@ C07 — Trained support vector machines are optimal solutions of their dual prob
 -/
 import SharkVerif.Lemmas.WarmStart
 import SharkVerif.Props.C08
+import SharkVerif.Lemmas.SvmUnpermute
 namespace SharkVerif.C07
 open SharkVerif.Qp SharkVerif.Smo SharkVerif.SvmTrainer
 
@@ -975,5 +976,683 @@ example : KernelPSD (fun _ _ => (1 : Rat)) := by
       rw [this]; ring
     rw [e, rsum_mul_left]
   rw [this]; exact mul_self_nonneg _
+
+/-! ## End to end on the ORIGINAL data: the coefficient vector the trainer returns
+
+Everything above speaks about the solver's internal state (variables in the order the accumulated coordinate flips
+left them).  The trainers hand `getUnpermutedAlpha()` to the model they build.  The theorems below are about that
+vector `a := unpermutedAlpha r.1 0`, the ORIGINAL kernel matrix `K`, linear term `lin0` and boxes `L0`, `U0`
+(`SvmUnpermute.Tied`: variable `k` of the state carries the data of original variable `perm k`, kept by every solver run,
+`SvmUnpermute.solve_tied`).  The true dual gradient of the returned vector is `G x = lin0 x − Σ_y K x y · a y`. -/
+
+section Returned
+open SharkVerif.SvmUnpermute
+
+variable {lin0 L0 U0 : Nat → Rat}
+
+/-- with all variables active the maintained gradient of variable `i` is the true dual gradient of the un-permuted
+vector at original variable `perm i` -/
+theorem returned_grad {t : RS} (h : Inv t) (ht : Tied lin0 L0 U0 t) (hact : t.active = t.n) :
+    ∀ i, i < t.n → t.g i = lin0 (t.perm i) - rsum (fun y => t.K (t.perm i) y * unpermutedAlpha t 0 y) t.n := by
+  intro i hi
+  rw [unperm_Kalpha h i hi, ← (ht.2 i hi).2.1]
+  exact h.grad i (by rw [hact]; exact hi)
+
+/-- `functionValue()` of a state with all variables active is the dual objective of the un-permuted vector on the
+original data -/
+theorem returned_value {t : RS} (h : Inv t) (ht : Tied lin0 L0 U0 t) (hact : t.active = t.n) :
+    t.functionValue = dual t.n t.K lin0 (unpermutedAlpha t 0) :=
+  (objective_recomputed t (fun k hk => h.grad k (by rw [hact]; exact hk))).trans (unperm_dual h ht).symm
+
+/-- a vector in the original boxes, re-indexed through the permutation, lies in the solver's boxes -/
+theorem perm_in_box {t : RS} (h : Inv t) (ht : Tied lin0 L0 U0 t) (β : Nat → Rat)
+    (hβ : ∀ x, x < t.n → L0 x ≤ β x ∧ β x ≤ U0 x) :
+    ∀ k, k < t.n → t.L k ≤ β (t.perm k) ∧ β (t.perm k) ≤ t.U k := by
+  intro k hk
+  rw [(ht.2 k hk).2.2.1, (ht.2 k hk).2.2.2]
+  exact hβ (t.perm k) (h.perm_lt k hk)
+
+/-- an offset inside the KKT interval of the solver's variables is inside the KKT interval of the original variables -/
+theorem returned_offset {t : RS} (h : Inv t) (ht : Tied lin0 L0 U0 t) (hact : t.active = t.n) {n : Nat}
+    {K : Nat → Nat → Rat} (hn : t.n = n) (hK : t.K = K) {ε b : Rat}
+    (hb : (∀ i, i < t.n → t.alpha i < t.U i → t.g i - b ≤ ε) ∧ (∀ j, j < t.n → t.L j < t.alpha j → b - t.g j ≤ ε)) :
+    ∀ x, x < n →
+      (unpermutedAlpha t 0 x < U0 x → (lin0 x - rsum (fun y => K x y * unpermutedAlpha t 0 y) n) - b ≤ ε) ∧
+      (L0 x < unpermutedAlpha t 0 x → b - (lin0 x - rsum (fun y => K x y * unpermutedAlpha t 0 y) n) ≤ ε) := by
+  subst hn hK
+  intro x hx
+  obtain ⟨i, hi, hix⟩ := perm_surj h.perm_lt h.perm_inj x hx
+  subst hix
+  rw [unperm_at h i hi, ← (ht.2 i hi).2.2.1, ← (ht.2 i hi).2.2.2, ← returned_grad h ht hact i hi]
+  exact ⟨hb.1 i hi, hb.2 i hi⟩
+
+/-- the state reported with `AccuracyReached` of the box-constrained problem, read on the original data -/
+theorem returned_box {t : RS} (h : Inv t) (ht : Tied lin0 L0 U0 t) (he : t.eqc = false) (hact : t.active = t.n)
+    (hpsd : PSD t.n (Qmat t)) {ε : Rat} (hε : 0 ≤ ε) (hk : t.checkKKT < ε) {n : Nat} {K : Nat → Nat → Rat}
+    (hn : t.n = n) (hK : t.K = K) :
+    (∀ x, x < n → L0 x ≤ unpermutedAlpha t 0 x ∧ unpermutedAlpha t 0 x ≤ U0 x) ∧
+    (∀ x, x < n →
+      (unpermutedAlpha t 0 x < U0 x → lin0 x - rsum (fun y => K x y * unpermutedAlpha t 0 y) n ≤ ε) ∧
+      (L0 x < unpermutedAlpha t 0 x → -(lin0 x - rsum (fun y => K x y * unpermutedAlpha t 0 y) n) ≤ ε)) ∧
+    t.functionValue = dual n K lin0 (unpermutedAlpha t 0) ∧
+    (∀ β : Nat → Rat, (∀ x, x < n → L0 x ≤ β x ∧ β x ≤ U0 x) →
+      dual n K lin0 β - dual n K lin0 (unpermutedAlpha t 0) ≤ ε * rsum (fun x => U0 x - L0 x) n) := by
+  subst hn hK
+  refine ⟨unperm_box h ht, ?_, returned_value h ht hact, ?_⟩
+  · intro x hx
+    obtain ⟨i, hi, hix⟩ := perm_surj h.perm_lt h.perm_inj x hx
+    subst hix
+    rw [unperm_at h i hi, ← (ht.2 i hi).2.2.1, ← (ht.2 i hi).2.2.2, ← returned_grad h ht hact i hi]
+    exact stopped_kkt_box h he (le_of_lt hk) i hi
+  · intro β hβ
+    have := stopped_near_optimal_box h he hact hpsd hε hk (fun i => β (t.perm i)) (perm_in_box h ht β hβ)
+    rw [← dual_perm h ht β, ← unperm_dual h ht, box_widths h ht] at this
+    exact this
+
+/-- **end to end on the original data, box-constrained problem** (FULL strength: any start state inside the invariant
+and tied to the original data, maximum-gain selection, any accuracy, iteration limit and start counter).  If the model of
+`QpSolver::solve` reports `AccuracyReached` for a PSD kernel, then the vector `getUnpermutedAlpha()` returns (i) lies in
+the ORIGINAL boxes, (ii) satisfies the KKT conditions of the original problem up to `eps` for its TRUE gradient
+`G = lin0 − K·a` (not the maintained one), (iii) has the dual objective `functionValue()` reports, and (iv) no vector in
+the original boxes has a dual objective more than `eps·Σ(U0−L0)` above it. -/
+theorem solve_returned_optimal_box (s0 : RS) (h0 : Inv s0) (ht0 : Tied lin0 L0 U0 s0) (he : s0.eqc = false)
+    (hpsd : KernelPSD s0.K) (strategy : Nat) (hstr : 2 ≤ strategy) (eps : Rat) (heps : 0 < eps)
+    (fuel counter it : Nat) :
+    let r := solve strategy eps fuel s0 counter it
+    let a := unpermutedAlpha r.1 0
+    let G : Nat → Rat := fun x => lin0 x - rsum (fun y => s0.K x y * a y) s0.n
+    r.2.1 = true →
+      (∀ x, x < s0.n → L0 x ≤ a x ∧ a x ≤ U0 x) ∧
+      (∀ x, x < s0.n → (a x < U0 x → G x ≤ eps) ∧ (L0 x < a x → -(G x) ≤ eps)) ∧
+      r.1.functionValue = dual s0.n s0.K lin0 a ∧
+      (∀ β : Nat → Rat, (∀ x, x < s0.n → L0 x ≤ β x ∧ β x ≤ U0 x) →
+        dual s0.n s0.K lin0 β - dual s0.n s0.K lin0 a ≤ eps * rsum (fun x => U0 x - L0 x) s0.n) := by
+  intro r a G hacc
+  obtain ⟨hI, he'⟩ : Inv r.1 ∧ r.1.eqc = false := C08.solve_inv_box strategy hstr eps heps fuel s0 counter it h0 he
+  obtain ⟨hk, hact⟩ := solve_acc strategy eps fuel s0 counter it hacc
+  have hK : r.1.K = s0.K := solve_K strategy eps fuel s0 counter it
+  have hn : r.1.n = s0.n := solve_n strategy eps fuel s0 counter it
+  have hT : Tied lin0 L0 U0 r.1 := solve_tied strategy eps fuel s0 counter it ht0
+  exact returned_box hI hT he' hact (hpsd.qmat r.1 hK) (le_of_lt heps) hk hn hK
+
+/-- the constant kernel 1 is PSD (used for the non-vacuity examples) -/
+theorem kernelPSD_one : KernelPSD (fun _ _ => (1 : Rat)) := by
+  intro m f v
+  have : bil m (fun _ _ => (1 : Rat)) v v = rsum v m * rsum v m := by
+    unfold bil
+    have e : (fun a => v a * rsum (fun b => (1 : Rat) * v b) m) = fun a => rsum v m * v a := by
+      funext a
+      have : rsum (fun b => (1 : Rat) * v b) m = rsum v m := rsum_congr (fun k _ => one_mul _)
+      rw [this]; ring
+    rw [e, rsum_mul_left]
+  rw [this]; exact mul_self_nonneg _
+
+/-- the C-SVM problem carries the data of the original dual: `lin0 = ±1`, boxes `[0, C₊w]` / `[−C₋w, 0]` -/
+theorem tied_csvmInit2 (n : Nat) (K : Nat → Nat → Rat) (y : Nat → Bool) (Cn Cp : Rat) (w : Nat → Rat) (bias sh : Bool) :
+    Tied (fun k => if y k then 1 else -1) (fun k => if y k then 0 else -(Cn * w k))
+      (fun k => if y k then Cp * w k else 0) (csvmInit2 n K y Cn Cp w bias sh) := by
+  refine ⟨Nat.le_refl _, fun k hk => ⟨hk, ?_, ?_, ?_⟩⟩
+  · show (if y k then (1.0 : Rat) else -(1.0 : Rat)) = if y k then 1 else -1
+    rw [lit1]
+  · show (if y k then (0.0 : Rat) else -(Cn * w k)) = if y k then 0 else -(Cn * w k)
+    rw [lit0]
+  · show (if y k then Cp * w k else (0.0 : Rat)) = if y k then Cp * w k else 0
+    rw [lit0]
+
+example : ∃ (s0 : RS) (lin0 L0 U0 : Nat → Rat), Inv s0 ∧ Tied lin0 L0 U0 s0 ∧ s0.eqc = false ∧ KernelPSD s0.K ∧
+    0 < s0.n :=
+  ⟨csvmInit2 2 (fun _ _ => 1) (fun k => k == 0) 1 2 (fun _ => 1) false false, _, _, _,
+   csvmInit2_inv 2 (fun _ _ => 1) (fun k => k == 0) 1 2 (fun _ => 1) false false (fun _ _ => rfl) (by norm_num)
+     (by norm_num) (fun _ _ => by norm_num),
+   tied_csvmInit2 2 (fun _ _ => 1) (fun k => k == 0) 1 2 (fun _ => 1) false false, rfl, kernelPSD_one, by decide⟩
+
+/-- **end to end on the original data, C-SVM without bias** (one or class-specific `C`, per-example weights, cold start;
+the model of `CSvmTrainer::optimize` with the box-constrained problem, any shrinking flag, any iteration limit; FULL
+strength).  If training reports `AccuracyReached` for a PSD kernel, the coefficients stored in the model
+(`getUnpermutedAlpha()`) lie in the boxes `[0, C₊w_k]` / `[−C₋w_k, 0]`, satisfy the KKT conditions of the dual
+`max Σ ±a_k − ½ aᵀKa` up to `eps` for their true gradient, `functionValue()` is their dual objective, and no vector in
+the boxes is more than `eps·Σ(U0−L0)` better. -/
+theorem csvm_nobias_returned_optimal (n : Nat) (K : Nat → Nat → Rat) (y : Nat → Bool) (Cn Cp : Rat) (w : Nat → Rat)
+    (eps : Rat) (shrink : Bool) (maxIter : Nat) (hsym : ∀ x y, K x y = K y x) (hpsd : KernelPSD K)
+    (hCn : 0 ≤ Cn) (hCp : 0 ≤ Cp) (hw : ∀ k, k < n → 0 ≤ w k) (heps : 0 < eps) :
+    let r := train2 n K y Cn Cp w eps false shrink maxIter
+    let a := unpermutedAlpha r.1 0
+    let lin0 : Nat → Rat := fun k => if y k then 1 else -1
+    let L0 : Nat → Rat := fun k => if y k then 0 else -(Cn * w k)
+    let U0 : Nat → Rat := fun k => if y k then Cp * w k else 0
+    let G : Nat → Rat := fun x => lin0 x - rsum (fun z => K x z * a z) n
+    r.2.1 = true →
+      (∀ x, x < n → L0 x ≤ a x ∧ a x ≤ U0 x) ∧
+      (∀ x, x < n → (a x < U0 x → G x ≤ eps) ∧ (L0 x < a x → -(G x) ≤ eps)) ∧
+      r.1.functionValue = dual n K lin0 a ∧
+      (∀ β : Nat → Rat, (∀ x, x < n → L0 x ≤ β x ∧ β x ≤ U0 x) →
+        dual n K lin0 β - dual n K lin0 a ≤ eps * rsum (fun x => U0 x - L0 x) n) :=
+  solve_returned_optimal_box (csvmInit2 n K y Cn Cp w false shrink)
+    (csvmInit2_inv n K y Cn Cp w false shrink hsym hCn hCp hw) (tied_csvmInit2 n K y Cn Cp w false shrink) rfl hpsd 2
+    (Nat.le_refl _) eps heps maxIter 0 0
+
+example : ∃ (n : Nat) (K : Nat → Nat → Rat) (Cn Cp eps : Rat) (w : Nat → Rat),
+    (∀ x y, K x y = K y x) ∧ KernelPSD K ∧ 0 ≤ Cn ∧ 0 ≤ Cp ∧ (∀ k, k < n → 0 ≤ w k) ∧ 0 < eps ∧ 0 < n :=
+  ⟨2, fun _ _ => 1, 1, 2, 1 / 1000, fun _ => 1, fun _ _ => rfl, kernelPSD_one, by norm_num, by norm_num,
+   fun _ _ => by norm_num, by norm_num, by decide⟩
+
+/-- **the same for a warm-started training without bias**, for EVERY coefficient vector `a1` the previous model carries
+(`CSvmTrainer::optimize` clips it to the boxes and calls `setInitialSolution`; `warm_start_inv`): FULL strength. -/
+theorem csvm_nobias_warm_returned_optimal (n : Nat) (K : Nat → Nat → Rat) (y : Nat → Bool) (Cn Cp : Rat)
+    (w : Nat → Rat) (eps : Rat) (shrink : Bool) (maxIter : Nat) (a1 : Nat → Rat) (hsym : ∀ x y, K x y = K y x)
+    (hpsd : KernelPSD K) (hCn : 0 ≤ Cn) (hCp : 0 ≤ Cp) (hw : ∀ k, k < n → 0 ≤ w k) (heps : 0 < eps) :
+    let r := train2Warm n K y Cn Cp w eps false shrink maxIter a1
+    let a := unpermutedAlpha r.1 0
+    let lin0 : Nat → Rat := fun k => if y k then 1 else -1
+    let L0 : Nat → Rat := fun k => if y k then 0 else -(Cn * w k)
+    let U0 : Nat → Rat := fun k => if y k then Cp * w k else 0
+    let G : Nat → Rat := fun x => lin0 x - rsum (fun z => K x z * a z) n
+    r.2.1 = true →
+      (∀ x, x < n → L0 x ≤ a x ∧ a x ≤ U0 x) ∧
+      (∀ x, x < n → (a x < U0 x → G x ≤ eps) ∧ (L0 x < a x → -(G x) ≤ eps)) ∧
+      r.1.functionValue = dual n K lin0 a ∧
+      (∀ β : Nat → Rat, (∀ x, x < n → L0 x ≤ β x ∧ β x ≤ U0 x) →
+        dual n K lin0 β - dual n K lin0 a ≤ eps * rsum (fun x => U0 x - L0 x) n) :=
+  solve_returned_optimal_box
+    ((csvmInit2 n K y Cn Cp w false shrink).setInitialSolution
+      (warmStartVector (csvmInit2 n K y Cn Cp w false shrink) a1 false))
+    (warm_start_inv n K y Cn Cp w false shrink a1 hsym hCn hCp hw).1
+    (tied_setInitialSolution (tied_csvmInit2 n K y Cn Cp w false shrink) _) rfl hpsd 2
+    (Nat.le_refl _) eps heps maxIter 0 0
+
+example : ∃ (n : Nat) (K : Nat → Nat → Rat) (Cn Cp eps : Rat) (w a1 : Nat → Rat),
+    (∀ x y, K x y = K y x) ∧ KernelPSD K ∧ 0 ≤ Cn ∧ 0 ≤ Cp ∧ (∀ k, k < n → 0 ≤ w k) ∧ 0 < eps ∧ 0 < n ∧ a1 0 = 7 :=
+  ⟨2, fun _ _ => 1, 1, 2, 1 / 1000, fun _ => 1, fun _ => 7, fun _ _ => rfl, kernelPSD_one, by norm_num, by norm_num,
+   fun _ _ => by norm_num, by norm_num, by decide, rfl⟩
+
+/-! ### equality-constrained problem (trained with bias / offset) -/
+
+/-- if the model of `QpSolver::solve` reports `AccuracyReached`, the state it returns is the un-shrunk state of the pass
+that left the loop -/
+theorem solve_acc_pass (strategy : Nat) (eps : Rat) : ∀ (fuel : Nat) (s : RS) (counter it : Nat),
+    (solve strategy eps fuel s counter it).2.1 = true →
+    ∃ t, t ∈ C08.passStates strategy eps fuel s counter ∧ (solve strategy eps fuel s counter it).1 = t.unshrink := by
+  intro fuel
+  induction fuel with
+  | zero => intro s _ _ h; simp [solve] at h
+  | succ fuel ih =>
+    intro s counter it h
+    unfold solve at h ⊢
+    unfold C08.passStates
+    cases hn : (solveIter strategy eps s counter).2 with
+    | none =>
+      obtain ⟨_, hev⟩ := stop_implies_kkt strategy eps s counter hn
+      refine ⟨s, List.mem_cons_self .., ?_⟩
+      simp only [hev, List.getLast?_singleton, Option.map_some, Option.getD_some]
+    | some p =>
+      obtain ⟨s', c'⟩ := p
+      simp only [hn] at h ⊢
+      obtain ⟨t, ht, e⟩ := ih s' c' (it + 1) h
+      exact ⟨t, List.mem_cons_of_mem _ ht, e⟩
+
+/-- under the sentinel hypothesis on the passes, the gradients of the state returned with `AccuracyReached` lie inside
+the sentinel range (this discharges `hrange` of `bias_in_kkt_interval_partial` for the returned state) -/
+theorem solve_acc_range (strategy : Nat) (eps : Rat) (fuel : Nat) (s : RS) (counter it : Nat)
+    (hsent : ∀ t, t ∈ C08.passStates strategy eps fuel s counter → SentinelOK t)
+    (hacc : (solve strategy eps fuel s counter it).2.1 = true) :
+    ∀ k, k < (solve strategy eps fuel s counter it).1.n →
+      -(10 : Rat) ^ 100 ≤ (solve strategy eps fuel s counter it).1.g k ∧
+      (solve strategy eps fuel s counter it).1.g k ≤ 10 ^ 100 := by
+  obtain ⟨t, ht, e⟩ := solve_acc_pass strategy eps fuel s counter it hacc
+  intro k hk
+  rw [e] at hk ⊢
+  rw [orderFree_n.unshrink t] at hk
+  have := hsent t ht k hk
+  exact ⟨le_of_lt this.1, le_of_lt this.2⟩
+
+/-- the state reported with `AccuracyReached` of the equality-constrained problem, read on the original data; `b` is any
+offset inside the KKT interval of the solver's variables (`computeBias`, `epsOffset`, `oneClassOffset`) -/
+theorem returned_svm {t : RS} (h : Inv t) (ht : Tied lin0 L0 U0 t) (he : t.eqc = true) (hact : t.active = t.n)
+    (hpsd : PSD t.n (Qmat t)) {ε : Rat} (hε : 0 ≤ ε) (hk : t.checkKKT < ε) {n : Nat} {K : Nat → Nat → Rat}
+    (hn : t.n = n) (hK : t.K = K) {c : Rat} (hc : alphaSum t = c) :
+    (∀ x, x < n → L0 x ≤ unpermutedAlpha t 0 x ∧ unpermutedAlpha t 0 x ≤ U0 x) ∧
+    rsum (unpermutedAlpha t 0) n = c ∧
+    (∀ x z, x < n → z < n → unpermutedAlpha t 0 x < U0 x → L0 z < unpermutedAlpha t 0 z →
+      (lin0 x - rsum (fun y => K x y * unpermutedAlpha t 0 y) n)
+        - (lin0 z - rsum (fun y => K z y * unpermutedAlpha t 0 y) n) ≤ ε) ∧
+    t.functionValue = dual n K lin0 (unpermutedAlpha t 0) ∧
+    (∀ β : Nat → Rat, (∀ x, x < n → L0 x ≤ β x ∧ β x ≤ U0 x) → rsum β n = c →
+      dual n K lin0 β - dual n K lin0 (unpermutedAlpha t 0) ≤ ε * rsum (fun x => U0 x - L0 x) n) := by
+  subst hn hK hc
+  refine ⟨unperm_box h ht, unperm_sum h, ?_, returned_value h ht hact, ?_⟩
+  · intro x z hx hz
+    obtain ⟨i, hi, hix⟩ := perm_surj h.perm_lt h.perm_inj x hx
+    obtain ⟨j, hj, hjz⟩ := perm_surj h.perm_lt h.perm_inj z hz
+    subst hix hjz
+    rw [unperm_at h i hi, unperm_at h j hj, ← (ht.2 i hi).2.2.2, ← (ht.2 j hj).2.2.1,
+      ← returned_grad h ht hact i hi, ← returned_grad h ht hact j hj]
+    exact stopped_pairwise_svm h he hact (le_of_lt hk) i j hi hj
+  · intro β hβ hsum
+    have hs : rsum (fun i => β (t.perm i)) t.n = alphaSum t := (rsum_perm h.perm_lt h.perm_inj β).trans hsum
+    have := stopped_near_optimal_svm h he hact hpsd hε hk (fun i => β (t.perm i)) (perm_in_box h ht β hβ) hs
+    rw [← dual_perm h ht β, ← unperm_dual h ht, box_widths h ht] at this
+    exact this
+
+/-- FULL STATEMENT (not provable for the code as it is): **end to end on the original data, equality-constrained
+problem** (LibSVM second-order selection, any start state inside the invariant and tied to the original data).  If the
+model of `QpSolver::solve` reports `AccuracyReached` for a PSD kernel, the vector `getUnpermutedAlpha()` returns lies in
+the ORIGINAL boxes, has the coefficient sum of the start vector, satisfies the pairwise KKT conditions up to `eps` for
+its TRUE gradient `G = lin0 − K·a`, has the dual objective `functionValue()` reports, no vector in the boxes with the
+same sum is more than `eps·Σ(U0−L0)` better, and the bias `CSvmTrainer::computeBias` returns lies in the interval the
+optimality conditions allow (`G_x − b ≤ eps` unless `a_x` is at its upper, `b − G_x ≤ eps` unless at its lower bound).
+PROVED PART: runs whose gradients stay strictly inside the C++ sentinel range `(−1e100, 1e100)` at the start of every
+pass (`hsent`); the sentinels `±1e100` are what `LibSVMSelectionCriterion` / `getMaxKKTViolations` and `computeBias`
+start their maxima from, `C08.selectLibSVM_sentinel_witness` and `bias_sentinel_witness` show what goes wrong
+outside.  The hypothesis also covers the returned state (`solve_acc_range`). -/
+theorem solve_returned_optimal_svm_partial (s0 : RS) (h0 : Inv s0) (ht0 : Tied lin0 L0 U0 s0) (he : s0.eqc = true)
+    (hpsd : KernelPSD s0.K) (eps : Rat) (heps : 0 < eps) (fuel counter it : Nat)
+    (hsent : ∀ t, t ∈ C08.passStates 1 eps fuel s0 counter → SentinelOK t) :
+    let r := solve 1 eps fuel s0 counter it
+    let a := unpermutedAlpha r.1 0
+    let G : Nat → Rat := fun x => lin0 x - rsum (fun y => s0.K x y * a y) s0.n
+    r.2.1 = true →
+      (∀ x, x < s0.n → L0 x ≤ a x ∧ a x ≤ U0 x) ∧
+      rsum a s0.n = alphaSum s0 ∧
+      (∀ x z, x < s0.n → z < s0.n → a x < U0 x → L0 z < a z → G x - G z ≤ eps) ∧
+      r.1.functionValue = dual s0.n s0.K lin0 a ∧
+      (∀ β : Nat → Rat, (∀ x, x < s0.n → L0 x ≤ β x ∧ β x ≤ U0 x) → rsum β s0.n = alphaSum s0 →
+        dual s0.n s0.K lin0 β - dual s0.n s0.K lin0 a ≤ eps * rsum (fun x => U0 x - L0 x) s0.n) ∧
+      (let b := computeBias r.1 (fun k => (k : Rat))
+       ∀ x, x < s0.n → (a x < U0 x → G x - b ≤ eps) ∧ (L0 x < a x → b - G x ≤ eps)) := by
+  intro r a G hacc
+  obtain ⟨hI, he'⟩ : Inv r.1 ∧ r.1.eqc = true := C08.solve_inv_svm_partial eps heps fuel s0 counter it h0 he hsent
+  obtain ⟨hk, hact⟩ := solve_acc 1 eps fuel s0 counter it hacc
+  have hK : r.1.K = s0.K := solve_K 1 eps fuel s0 counter it
+  have hn : r.1.n = s0.n := solve_n 1 eps fuel s0 counter it
+  have hT : Tied lin0 L0 U0 r.1 := solve_tied 1 eps fuel s0 counter it ht0
+  have hc : alphaSum r.1 = alphaSum s0 := solve_sum_svm_partial eps heps fuel s0 counter it h0 he hsent
+  obtain ⟨c1, c2, c3, c4, c5⟩ := returned_svm hI hT he' hact (hpsd.qmat r.1 hK) (le_of_lt heps) hk hn hK hc
+  refine ⟨c1, c2, c3, c4, c5, ?_⟩
+  intro b
+  have hb := bias_in_kkt_interval_partial hI (le_of_lt heps) (stopped_pairwise_svm hI he' hact (le_of_lt hk))
+    (solve_acc_range 1 eps fuel s0 counter it hsent hacc)
+  exact returned_offset hI hT hact hn hK hb
+
+/-- with iteration limit 1 the only pass starts from the start state -/
+theorem passStates_one (strategy : Nat) (eps : Rat) (s : RS) (counter : Nat) (t : RS)
+    (ht : t ∈ C08.passStates strategy eps 1 s counter) : t = s := by
+  have e : C08.passStates strategy eps (0 + 1) s counter = [s] := by
+    rw [C08.passStates]
+    cases (solveIter strategy eps s counter).2 with
+    | none => rfl
+    | some p => obtain ⟨s', c'⟩ := p; rfl
+  rw [show C08.passStates strategy eps 1 s counter = [s] from e] at ht
+  simpa using ht
+
+/-- the start state of a C-SVM problem has its gradients (`±1`) inside the sentinel range -/
+theorem sentinelOK_csvmInit2 (n : Nat) (K : Nat → Nat → Rat) (y : Nat → Bool) (Cn Cp : Rat) (w : Nat → Rat)
+    (bias sh : Bool) : SentinelOK (csvmInit2 n K y Cn Cp w bias sh) := by
+  intro a _
+  rw [unshrink_of_active (show (csvmInit2 n K y Cn Cp w bias sh).active = (csvmInit2 n K y Cn Cp w bias sh).n from rfl)]
+  show -(10 : Rat) ^ 100 < (if y a then (1.0 : Rat) else -(1.0 : Rat)) ∧
+    (if y a then (1.0 : Rat) else -(1.0 : Rat)) < 10 ^ 100
+  rw [lit1]
+  split <;> constructor <;> norm_num
+
+example : ∃ (s0 : RS) (lin0 L0 U0 : Nat → Rat) (eps : Rat), Inv s0 ∧ Tied lin0 L0 U0 s0 ∧ s0.eqc = true ∧
+    KernelPSD s0.K ∧ 0 < eps ∧ 0 < s0.n ∧ (∀ t, t ∈ C08.passStates 1 eps 1 s0 0 → SentinelOK t) :=
+  ⟨csvmInit2 2 (fun _ _ => 1) (fun k => k == 0) 1 2 (fun _ => 1) true false, _, _, _, 1 / 1000,
+   csvmInit2_inv 2 (fun _ _ => 1) (fun k => k == 0) 1 2 (fun _ => 1) true false (fun _ _ => rfl) (by norm_num)
+     (by norm_num) (fun _ _ => by norm_num),
+   tied_csvmInit2 2 (fun _ _ => 1) (fun k => k == 0) 1 2 (fun _ => 1) true false, rfl, kernelPSD_one, by norm_num,
+   by decide, fun t ht => by rw [passStates_one _ _ _ _ t ht]; exact sentinelOK_csvmInit2 _ _ _ _ _ _ _ _⟩
+
+theorem alphaSum_csvmInit2 (n : Nat) (K : Nat → Nat → Rat) (y : Nat → Bool) (Cn Cp : Rat) (w : Nat → Rat)
+    (bias sh : Bool) : alphaSum (csvmInit2 n K y Cn Cp w bias sh) = 0 := by
+  show rsum (fun _ => (0.0 : Rat)) n = 0
+  rw [lit0]; exact rsum_const_zero n
+
+/-- FULL STATEMENT (not provable for the code as it is): **end to end on the original data, C-SVM with bias** (one or
+class-specific `C`, per-example weights, cold start; the model of `CSvmTrainer::optimize` with `SvmShrinkingProblem`, any
+shrinking flag, any iteration limit).  If training reports `AccuracyReached` for a PSD kernel, the coefficients stored in
+the model (`getUnpermutedAlpha()`) lie in the boxes `[0, C₊w_k]` / `[−C₋w_k, 0]`, sum to 0 exactly, satisfy the pairwise
+KKT conditions of the dual up to `eps` for their true gradient, `functionValue()` is their dual objective, no vector in the
+boxes with sum 0 is more than `eps·Σ(U0−L0)` better, and the bias of `CSvmTrainer::computeBias` lies in the KKT interval.
+PROVED PART: runs whose gradients stay strictly inside the C++ sentinel range `(−1e100, 1e100)` at the start of every pass
+(`hsent`; witnesses outside: `C08.selectLibSVM_sentinel_witness`, `bias_sentinel_witness`). -/
+theorem csvm_bias_returned_optimal_partial (n : Nat) (K : Nat → Nat → Rat) (y : Nat → Bool) (Cn Cp : Rat)
+    (w : Nat → Rat) (eps : Rat) (shrink : Bool) (maxIter : Nat) (hsym : ∀ x y, K x y = K y x) (hpsd : KernelPSD K)
+    (hCn : 0 ≤ Cn) (hCp : 0 ≤ Cp) (hw : ∀ k, k < n → 0 ≤ w k) (heps : 0 < eps)
+    (hsent : ∀ t, t ∈ C08.passStates 1 eps maxIter (csvmInit2 n K y Cn Cp w true shrink) 0 → SentinelOK t) :
+    let r := train2 n K y Cn Cp w eps true shrink maxIter
+    let a := unpermutedAlpha r.1 0
+    let lin0 : Nat → Rat := fun k => if y k then 1 else -1
+    let L0 : Nat → Rat := fun k => if y k then 0 else -(Cn * w k)
+    let U0 : Nat → Rat := fun k => if y k then Cp * w k else 0
+    let G : Nat → Rat := fun x => lin0 x - rsum (fun z => K x z * a z) n
+    r.2.1 = true →
+      (∀ x, x < n → L0 x ≤ a x ∧ a x ≤ U0 x) ∧
+      rsum a n = 0 ∧
+      (∀ x z, x < n → z < n → a x < U0 x → L0 z < a z → G x - G z ≤ eps) ∧
+      r.1.functionValue = dual n K lin0 a ∧
+      (∀ β : Nat → Rat, (∀ x, x < n → L0 x ≤ β x ∧ β x ≤ U0 x) → rsum β n = 0 →
+        dual n K lin0 β - dual n K lin0 a ≤ eps * rsum (fun x => U0 x - L0 x) n) ∧
+      (let b := computeBias r.1 (fun k => (k : Rat))
+       ∀ x, x < n → (a x < U0 x → G x - b ≤ eps) ∧ (L0 x < a x → b - G x ≤ eps)) := by
+  intro r a lin0 L0 U0 G hacc
+  have h := solve_returned_optimal_svm_partial (csvmInit2 n K y Cn Cp w true shrink)
+    (csvmInit2_inv n K y Cn Cp w true shrink hsym hCn hCp hw) (tied_csvmInit2 n K y Cn Cp w true shrink) rfl hpsd
+    eps heps maxIter 0 0 hsent hacc
+  rw [alphaSum_csvmInit2] at h
+  exact h
+
+example : ∃ (n : Nat) (K : Nat → Nat → Rat) (y : Nat → Bool) (Cn Cp eps : Rat) (w : Nat → Rat) (sh : Bool),
+    (∀ x y, K x y = K y x) ∧ KernelPSD K ∧ 0 ≤ Cn ∧ 0 ≤ Cp ∧ (∀ k, k < n → 0 ≤ w k) ∧ 0 < eps ∧ 0 < n ∧
+    (∀ t, t ∈ C08.passStates 1 eps 1 (csvmInit2 n K y Cn Cp w true sh) 0 → SentinelOK t) :=
+  ⟨2, fun _ _ => 1, fun k => k == 0, 1, 2, 1 / 1000, fun _ => 1, false, fun _ _ => rfl, kernelPSD_one, by norm_num,
+   by norm_num, fun _ _ => by norm_num, by norm_num, by decide,
+   fun t ht => by rw [passStates_one _ _ _ _ t ht]; exact sentinelOK_csvmInit2 _ _ _ _ _ _ _ _⟩
+
+/-- FULL STATEMENT (not provable for the code as it is): **the same for a warm-started training with bias**, for every
+coefficient vector `a1` of the previous model that is changed by clipping or sums to 0 (`warm_start_inv`: the start vector
+`CSvmTrainer::optimize` hands to `setInitialSolution` then sums to 0 exactly): the returned coefficients sum to 0 and are
+`eps`-optimal among the vectors in the boxes with sum 0; the bias lies in the KKT interval.
+PROVED PART: as for the cold start, runs inside the sentinel range `(−1e100, 1e100)` (`hsent`). -/
+theorem csvm_bias_warm_returned_optimal_partial (n : Nat) (K : Nat → Nat → Rat) (y : Nat → Bool) (Cn Cp : Rat)
+    (w : Nat → Rat) (eps : Rat) (shrink : Bool) (maxIter : Nat) (a1 : Nat → Rat) (hsym : ∀ x y, K x y = K y x)
+    (hpsd : KernelPSD K) (hCn : 0 ≤ Cn) (hCp : 0 ≤ Cp) (hw : ∀ k, k < n → 0 ≤ w k) (heps : 0 < eps)
+    (hz : anyClip (csvmInit2 n K y Cn Cp w true shrink) a1 ∨ rsum a1 n = 0)
+    (hsent : ∀ t, t ∈ C08.passStates 1 eps maxIter
+      ((csvmInit2 n K y Cn Cp w true shrink).setInitialSolution
+        (warmStartVector (csvmInit2 n K y Cn Cp w true shrink) a1 true)) 0 → SentinelOK t) :
+    let r := train2Warm n K y Cn Cp w eps true shrink maxIter a1
+    let a := unpermutedAlpha r.1 0
+    let lin0 : Nat → Rat := fun k => if y k then 1 else -1
+    let L0 : Nat → Rat := fun k => if y k then 0 else -(Cn * w k)
+    let U0 : Nat → Rat := fun k => if y k then Cp * w k else 0
+    let G : Nat → Rat := fun x => lin0 x - rsum (fun z => K x z * a z) n
+    r.2.1 = true →
+      (∀ x, x < n → L0 x ≤ a x ∧ a x ≤ U0 x) ∧
+      rsum a n = 0 ∧
+      (∀ x z, x < n → z < n → a x < U0 x → L0 z < a z → G x - G z ≤ eps) ∧
+      r.1.functionValue = dual n K lin0 a ∧
+      (∀ β : Nat → Rat, (∀ x, x < n → L0 x ≤ β x ∧ β x ≤ U0 x) → rsum β n = 0 →
+        dual n K lin0 β - dual n K lin0 a ≤ eps * rsum (fun x => U0 x - L0 x) n) ∧
+      (let b := computeBias r.1 (fun k => (k : Rat))
+       ∀ x, x < n → (a x < U0 x → G x - b ≤ eps) ∧ (L0 x < a x → b - G x ≤ eps)) := by
+  intro r a lin0 L0 U0 G hacc
+  have hw0 := warm_start_inv n K y Cn Cp w true shrink a1 hsym hCn hCp hw
+  have h := solve_returned_optimal_svm_partial
+    ((csvmInit2 n K y Cn Cp w true shrink).setInitialSolution
+      (warmStartVector (csvmInit2 n K y Cn Cp w true shrink) a1 true))
+    hw0.1 (tied_setInitialSolution (tied_csvmInit2 n K y Cn Cp w true shrink) _) rfl hpsd
+    eps heps maxIter 0 0 hsent hacc
+  rw [hw0.2 rfl hz] at h
+  exact h
+
+example : ∃ (n : Nat) (K : Nat → Nat → Rat) (y : Nat → Bool) (Cn Cp eps : Rat) (w a1 : Nat → Rat) (sh : Bool),
+    (∀ x y, K x y = K y x) ∧ KernelPSD K ∧ 0 ≤ Cn ∧ 0 ≤ Cp ∧ (∀ k, k < n → 0 ≤ w k) ∧ 0 < eps ∧ 0 < n ∧
+    (anyClip (csvmInit2 n K y Cn Cp w true sh) a1 ∨ rsum a1 n = 0) ∧
+    (∀ t, t ∈ C08.passStates 1 eps 0 ((csvmInit2 n K y Cn Cp w true sh).setInitialSolution
+        (warmStartVector (csvmInit2 n K y Cn Cp w true sh) a1 true)) 0 → SentinelOK t) :=
+  ⟨2, fun _ _ => 1, fun k => k == 0, 1, 2, 1 / 1000, fun _ => 1, fun _ => 0, false, fun _ _ => rfl, kernelPSD_one,
+   by norm_num, by norm_num, fun _ _ => by norm_num, by norm_num, by decide,
+   Or.inr (rsum_const_zero 2), fun t ht => by simp [C08.passStates] at ht⟩
+
+/-! ### ε-regression and one-class machines -/
+
+/-- the variable doubling of ε-regression: the kernel expansion over the `2n` variables of the block matrix is the
+expansion of the `n` summed coefficients `v_j + v_{n+j}` -/
+theorem rsum_block (K : Nat → Nat → Rat) (n m : Nat) (v : Nat → Rat) :
+    rsum (fun c => K (m % n) (c % n) * v c) (2 * n) = rsum (fun j => K (m % n) j * (v j + v (n + j))) n := by
+  rw [rsum_two_mul, ← rsum_add]
+  apply rsum_congr; intro l hl
+  rw [Nat.add_mod_left, Nat.mod_eq_of_lt hl]; ring
+
+theorem tied_epsInit (n : Nat) (K : Nat → Nat → Rat) (y : Nat → Rat) (C tube : Rat) (sh : Bool) :
+    Tied (fun k => if k < n then y k - tube else y (k - n) + tube) (fun k => if k < n then 0 else -C)
+      (fun k => if k < n then C else 0) (epsInit n K y C tube sh) := by
+  refine ⟨Nat.le_refl _, fun k hk => ⟨hk, rfl, ?_, ?_⟩⟩
+  · show (if k < n then (0.0 : Rat) else -C) = if k < n then 0 else -C
+    rw [lit0]
+  · show (if k < n then C else (0.0 : Rat)) = if k < n then C else 0
+    rw [lit0]
+
+theorem alphaSum_epsInit (n : Nat) (K : Nat → Nat → Rat) (y : Nat → Rat) (C tube : Rat) (sh : Bool) :
+    alphaSum (epsInit n K y C tube sh) = 0 := by
+  show rsum (fun _ => (0.0 : Rat)) (2 * n) = 0
+  rw [lit0]; exact rsum_const_zero _
+
+/-- the statements about the `2n` variables of the ε-regression dual, read per training point -/
+theorem eps_unfold (n : Nat) (K : Nat → Nat → Rat) (y : Nat → Rat) (C tube ε b : Rat) (a : Nat → Rat)
+    (c1 : ∀ x, x < 2 * n → (if x < n then 0 else -C) ≤ a x ∧ a x ≤ (if x < n then C else 0))
+    (c2 : rsum a (2 * n) = 0)
+    (hoff : ∀ x, x < 2 * n →
+      (a x < (if x < n then C else 0) →
+        ((if x < n then y x - tube else y (x - n) + tube) - rsum (fun c => K (x % n) (c % n) * a c) (2 * n)) - b ≤ ε) ∧
+      ((if x < n then 0 else -C) < a x →
+        b - ((if x < n then y x - tube else y (x - n) + tube) - rsum (fun c => K (x % n) (c % n) * a c) (2 * n)) ≤ ε)) :
+    (∀ k, k < n → 0 ≤ a k ∧ a k ≤ C ∧ -C ≤ a (n + k) ∧ a (n + k) ≤ 0) ∧
+    rsum (fun k => a k + a (n + k)) n = 0 ∧
+    (∀ k, k < n →
+      (a k < C → ((y k - rsum (fun j => K k j * (a j + a (n + j))) n) - tube) - b ≤ ε) ∧
+      (0 < a k → b - ((y k - rsum (fun j => K k j * (a j + a (n + j))) n) - tube) ≤ ε) ∧
+      (a (n + k) < 0 → ((y k - rsum (fun j => K k j * (a j + a (n + j))) n) + tube) - b ≤ ε) ∧
+      (-C < a (n + k) → b - ((y k - rsum (fun j => K k j * (a j + a (n + j))) n) + tube) ≤ ε)) := by
+  refine ⟨?_, ?_, ?_⟩
+  · intro k hk
+    have hnk : ¬ (n + k < n) := by omega
+    have h1 := c1 k (by omega)
+    have h2 := c1 (n + k) (by omega)
+    rw [if_pos hk, if_pos hk] at h1
+    rw [if_neg hnk, if_neg hnk] at h2
+    exact ⟨h1.1, h1.2, h2.1, h2.2⟩
+  · exact (rsum_add a (fun k => a (n + k)) n).trans ((rsum_two_mul a n).symm.trans c2)
+  · intro k hk
+    have hnk : ¬ (n + k < n) := by omega
+    have e1 := hoff k (by omega)
+    have e2 := hoff (n + k) (by omega)
+    rw [rsum_block K n k a, Nat.mod_eq_of_lt hk] at e1
+    rw [rsum_block K n (n + k) a, Nat.add_mod_left, Nat.mod_eq_of_lt hk] at e2
+    simp only [if_pos hk] at e1
+    simp only [if_neg hnk, Nat.add_sub_cancel_left] at e2
+    refine ⟨fun h => ?_, fun h => ?_, fun h => ?_, fun h => ?_⟩
+    · have := e1.1 h; linarith
+    · have := e1.2 h; linarith
+    · have := e2.1 h; linarith
+    · have := e2.2 h; linarith
+
+/-- FULL STATEMENT (not provable for the code as it is): **end to end on the original data, ε-insensitive regression**
+(the model of `EpsilonSvmTrainer::trainSVM`: `2n` variables over the block matrix `[[K,K],[K,K]]`, LibSVM selection, any
+shrinking flag and iteration limit).  If training reports `AccuracyReached` for a PSD kernel and `C > 0`, then with
+`a = getUnpermutedAlpha()`, the model coefficients `β_k = a_k + a_{n+k}`, the residual without offset
+`F_k = y_k − Σ_j K(k,j) β_j` and the offset `b` the trainer computes: `a_k ∈ [0,C]`, `a_{n+k} ∈ [−C,0]`, `Σβ = 0`, and
+`b` satisfies the optimality conditions of both halves up to `eps` (`F_k − tube − b ≤ eps` unless `a_k = C`,
+`b − (F_k − tube) ≤ eps` unless `a_k = 0`, `F_k + tube − b ≤ eps` unless `a_{n+k} = 0`, `b − (F_k + tube) ≤ eps` unless
+`a_{n+k} = −C`) -- i.e. up to `eps` every point with a free coefficient lies on the boundary of the tube and the others on
+the correct side.  PROVED PART: runs whose gradients stay strictly inside the C++ sentinel range `(−1e100, 1e100)` at the
+start of every pass (`hsent`; `C08.selectLibSVM_sentinel_witness`, `bias_sentinel_witness`). -/
+theorem eps_regression_returned_partial (n : Nat) (K : Nat → Nat → Rat) (y : Nat → Rat) (C tube eps : Rat) (sh : Bool)
+    (fuel : Nat) (hsym : ∀ x y, K x y = K y x) (hpsd : KernelPSD K) (hC : 0 < C) (heps : 0 < eps)
+    (hsent : ∀ t, t ∈ C08.passStates 1 eps fuel (epsInit n K y C tube sh) 0 → SentinelOK t) :
+    let r := solve 1 eps fuel (epsInit n K y C tube sh) 0 0
+    let a := unpermutedAlpha r.1 0
+    let β : Nat → Rat := epsCoefficients n r.1 0
+    let F : Nat → Rat := fun k => y k - rsum (fun j => K k j * β j) n
+    let b := epsOffset r.1 (fun k => (k : Rat))
+    r.2.1 = true →
+      (∀ k, k < n → 0 ≤ a k ∧ a k ≤ C ∧ -C ≤ a (n + k) ∧ a (n + k) ≤ 0) ∧
+      rsum β n = 0 ∧
+      (∀ k, k < n →
+        (a k < C → (F k - tube) - b ≤ eps) ∧ (0 < a k → b - (F k - tube) ≤ eps) ∧
+        (a (n + k) < 0 → (F k + tube) - b ≤ eps) ∧ (-C < a (n + k) → b - (F k + tube) ≤ eps)) := by
+  intro r a β F b hacc
+  have h0 : Inv (epsInit n K y C tube sh) := epsInit_inv n K y C tube sh hsym (le_of_lt hC)
+  have ht0 := tied_epsInit n K y C tube sh
+  have hpsd' : KernelPSD (fun a b => K (a % n) (b % n)) := hpsd.block n
+  obtain ⟨hI, he'⟩ : Inv r.1 ∧ r.1.eqc = true :=
+    C08.solve_inv_svm_partial eps heps fuel (epsInit n K y C tube sh) 0 0 h0 rfl hsent
+  obtain ⟨hk, hact⟩ := solve_acc 1 eps fuel (epsInit n K y C tube sh) 0 0 hacc
+  have hK : r.1.K = fun a b => K (a % n) (b % n) := solve_K 1 eps fuel (epsInit n K y C tube sh) 0 0
+  have hn : r.1.n = 2 * n := solve_n 1 eps fuel (epsInit n K y C tube sh) 0 0
+  have hT := solve_tied 1 eps fuel (epsInit n K y C tube sh) 0 0 ht0
+  have hc : alphaSum r.1 = 0 :=
+    (solve_sum_svm_partial eps heps fuel (epsInit n K y C tube sh) 0 0 h0 rfl hsent).trans
+      (alphaSum_epsInit n K y C tube sh)
+  obtain ⟨c1, c2, _, _, _⟩ := returned_svm hI hT he' hact (hpsd'.qmat r.1 hK) (le_of_lt heps) hk hn hK hc
+  have hnd : ∀ k, k < r.1.n → r.1.L k < r.1.U k := by
+    intro k hk'
+    rw [(hT.2 k hk').2.2.1, (hT.2 k hk').2.2.2]
+    show (if r.1.perm k < n then (0 : Rat) else -C) < (if r.1.perm k < n then C else 0)
+    by_cases hp : r.1.perm k < n
+    · rw [if_pos hp, if_pos hp]; exact hC
+    · rw [if_neg hp, if_neg hp]; linarith
+  have hb := eps_offset_in_kkt_interval_partial hI (le_of_lt heps)
+    (stopped_pairwise_svm hI he' hact (le_of_lt hk)) hnd
+    (solve_acc_range 1 eps fuel (epsInit n K y C tube sh) 0 0 hsent hacc)
+  have hoff := returned_offset hI hT hact hn hK hb
+  exact eps_unfold n K y C tube eps b (unpermutedAlpha r.1 0) c1 c2 hoff
+
+/-- the start state of the ε-regression problem has its gradients (`y_k ∓ tube`) inside the sentinel range when the
+labels are -/
+theorem sentinelOK_epsInit (n : Nat) (K : Nat → Nat → Rat) (y : Nat → Rat) (C tube : Rat) (sh : Bool)
+    (hy : ∀ k, -(10 : Rat) ^ 100 < y k - tube ∧ y k + tube < 10 ^ 100) (htube : 0 ≤ tube) :
+    SentinelOK (epsInit n K y C tube sh) := by
+  intro a _
+  rw [unshrink_of_active (show (epsInit n K y C tube sh).active = (epsInit n K y C tube sh).n from rfl)]
+  show -(10 : Rat) ^ 100 < (if a < n then y a - tube else y (a - n) + tube) ∧
+    (if a < n then y a - tube else y (a - n) + tube) < 10 ^ 100
+  split
+  · have := hy a; constructor <;> linarith
+  · have := hy (a - n); constructor <;> linarith
+
+example : ∃ (n : Nat) (K : Nat → Nat → Rat) (y : Nat → Rat) (C tube eps : Rat) (sh : Bool),
+    (∀ x y, K x y = K y x) ∧ KernelPSD K ∧ 0 < C ∧ 0 < eps ∧ 0 < n ∧
+    (∀ t, t ∈ C08.passStates 1 eps 1 (epsInit n K y C tube sh) 0 → SentinelOK t) :=
+  ⟨2, fun _ _ => 1, fun _ => 1, 1, 1 / 10, 1 / 1000, false, fun _ _ => rfl, kernelPSD_one, by norm_num, by norm_num,
+   by decide, fun t ht => by
+     rw [passStates_one _ _ _ _ t ht]
+     exact sentinelOK_epsInit _ _ _ _ _ _ (fun _ => by constructor <;> norm_num) (by norm_num)⟩
+
+theorem tied_oneClassInit (n : Nat) (K : Nat → Nat → Rat) (nu : Rat) (sh : Bool) :
+    Tied (fun _ => 0) (fun _ => 0) (fun _ => 1 / (nu * (n : Rat))) (oneClassInit n K nu (n : Rat) sh) := by
+  refine ⟨Nat.le_refl _, fun k hk => ⟨hk, ?_, ?_, ?_⟩⟩
+  · show (0.0 : Rat) = 0
+    exact lit0
+  · show (0.0 : Rat) = 0
+    exact lit0
+  · show (1.0 : Rat) / (nu * (n : Rat)) = 1 / (nu * (n : Rat))
+    rw [lit1]
+
+/-- FULL STATEMENT (not provable for the code as it is): **end to end on the original data, one-class SVM** (the model of
+`OneClassSvmTrainer::trainSVM`: `BoxedSVMProblem` with `alpha = 1/n`, zero linear term, box `[0, 1/(nu·n)]`, LibSVM
+selection).  If training reports `AccuracyReached` for a PSD kernel, `0 < nu < 1`, then `a = getUnpermutedAlpha()` lies in
+`[0, 1/(nu·n)]`, sums to 1 exactly, and the offset `b` the trainer computes satisfies the optimality conditions up to `eps`
+for the true gradient `G_x = −Σ_y K(x,y) a_y` (`G_x − b ≤ eps` unless `a_x` is at the upper bound, `b − G_x ≤ eps` unless
+`a_x = 0`).  PROVED PART: runs whose gradients stay strictly inside the C++ sentinel range `(−1e100, 1e100)` at the start
+of every pass (`hsent`; `C08.selectLibSVM_sentinel_witness`, `bias_sentinel_witness`). -/
+theorem oneclass_returned_partial (n : Nat) (K : Nat → Nat → Rat) (nu eps : Rat) (sh : Bool) (fuel : Nat)
+    (hsym : ∀ x y, K x y = K y x) (hpsd : KernelPSD K) (hn0 : 0 < n) (hnu0 : 0 < nu) (hnu1 : nu < 1) (heps : 0 < eps)
+    (hsent : ∀ t, t ∈ C08.passStates 1 eps fuel (oneClassInit n K nu (n : Rat) sh) 0 → SentinelOK t) :
+    let r := solve 1 eps fuel (oneClassInit n K nu (n : Rat) sh) 0 0
+    let a := unpermutedAlpha r.1 0
+    let G : Nat → Rat := fun x => - rsum (fun z => K x z * a z) n
+    let b := oneClassOffset r.1 (1 / (nu * (n : Rat))) (fun k => (k : Rat))
+    r.2.1 = true →
+      (∀ x, x < n → 0 ≤ a x ∧ a x ≤ 1 / (nu * (n : Rat))) ∧
+      rsum a n = 1 ∧
+      (∀ x, x < n → (a x < 1 / (nu * (n : Rat)) → G x - b ≤ eps) ∧ (0 < a x → b - G x ≤ eps)) := by
+  intro r a G b hacc
+  obtain ⟨h0, hs0⟩ := oneClassInit_inv n K nu sh hsym hn0 hnu0 hnu1
+  have ht0 := tied_oneClassInit n K nu sh
+  obtain ⟨hI, he'⟩ : Inv r.1 ∧ r.1.eqc = true :=
+    C08.solve_inv_svm_partial eps heps fuel (oneClassInit n K nu (n : Rat) sh) 0 0 h0 rfl hsent
+  obtain ⟨hk, hact⟩ := solve_acc 1 eps fuel (oneClassInit n K nu (n : Rat) sh) 0 0 hacc
+  have hK : r.1.K = K := solve_K 1 eps fuel (oneClassInit n K nu (n : Rat) sh) 0 0
+  have hn : r.1.n = n := solve_n 1 eps fuel (oneClassInit n K nu (n : Rat) sh) 0 0
+  have hT := solve_tied 1 eps fuel (oneClassInit n K nu (n : Rat) sh) 0 0 ht0
+  have hc : alphaSum r.1 = 1 :=
+    (solve_sum_svm_partial eps heps fuel (oneClassInit n K nu (n : Rat) sh) 0 0 h0 rfl hsent).trans hs0
+  obtain ⟨c1, c2, _, _, _⟩ := returned_svm hI hT he' hact (hpsd.qmat r.1 hK) (le_of_lt heps) hk hn hK hc
+  have hnq : (0 : Rat) < (n : Rat) := by exact_mod_cast hn0
+  have hup : (0 : Rat) < 1 / (nu * (n : Rat)) := div_pos one_pos (mul_pos hnu0 hnq)
+  have hbox : ∀ k, k < r.1.n → r.1.L k = 0 ∧ r.1.U k = 1 / (nu * (n : Rat)) :=
+    fun k hk' => ⟨(hT.2 k hk').2.2.1, (hT.2 k hk').2.2.2⟩
+  have hb := oneclass_offset_in_kkt_interval_partial hI (le_of_lt heps) hup hbox
+    (stopped_pairwise_svm hI he' hact (le_of_lt hk))
+    (solve_acc_range 1 eps fuel (oneClassInit n K nu (n : Rat) sh) 0 0 hsent hacc)
+  have hoff := returned_offset hI hT hact hn hK hb
+  refine ⟨c1, c2, ?_⟩
+  intro x hx
+  have := hoff x hx
+  simp only [zero_sub] at this
+  exact this
+
+example : ∃ (n : Nat) (K : Nat → Nat → Rat) (nu eps : Rat) (sh : Bool),
+    (∀ x y, K x y = K y x) ∧ KernelPSD K ∧ 0 < n ∧ 0 < nu ∧ nu < 1 ∧ 0 < eps ∧
+    (∀ t, t ∈ C08.passStates 1 eps 0 (oneClassInit n K nu (n : Rat) sh) 0 → SentinelOK t) :=
+  ⟨2, fun _ _ => 1, 1 / 2, 1 / 1000, false, fun _ _ => rfl, kernelPSD_one, by decide, by norm_num, by norm_num,
+   by norm_num, fun t ht => by simp [C08.passStates] at ht⟩
+
+/-! ### the premises are reachable
+
+Concrete two-point problems (rank-one PSD kernel `K x y = (x+1)(y+1)`) on which ALL hypotheses of the theorems above hold
+-- including the sentinel hypothesis on every pass -- and the run does end with `AccuracyReached`: the runs are evaluated
+by the kernel of Lean (`decide +kernel`, exact rational arithmetic), so the theorems are not vacuous. -/
+
+theorem kernelPSD_rank1 (φ : Nat → Rat) : KernelPSD (fun x y => φ x * φ y) := by
+  intro m f v
+  show 0 ≤ bil m (fun a b => φ (f a) * φ (f b)) v v
+  have : bil m (fun a b => φ (f a) * φ (f b)) v v
+      = rsum (fun b => φ (f b) * v b) m * rsum (fun b => φ (f b) * v b) m := by
+    unfold bil
+    have e : (fun a => v a * rsum (fun b => φ (f a) * φ (f b) * v b) m)
+        = fun a => rsum (fun b => φ (f b) * v b) m * (φ (f a) * v a) := by
+      funext a
+      have : rsum (fun b => φ (f a) * φ (f b) * v b) m = φ (f a) * rsum (fun b => φ (f b) * v b) m := by
+        rw [← rsum_mul_left]; apply rsum_congr; intro k _; ring
+      rw [this]; ring
+    rw [e, rsum_mul_left]
+  rw [this]; exact mul_self_nonneg _
+
+/-- `csvm_nobias_returned_optimal`, `csvm_nobias_warm_returned_optimal`: hypotheses and premise hold together -/
+example : ∃ (n : Nat) (K : Nat → Nat → Rat) (y : Nat → Bool) (Cn Cp eps : Rat) (w a1 : Nat → Rat) (sh : Bool)
+    (maxIter : Nat),
+    (∀ x y, K x y = K y x) ∧ KernelPSD K ∧ 0 ≤ Cn ∧ 0 ≤ Cp ∧ (∀ k, k < n → 0 ≤ w k) ∧ 0 < eps ∧
+    (train2 n K y Cn Cp w eps false sh maxIter).2.1 = true ∧
+    (train2Warm n K y Cn Cp w eps false sh maxIter a1).2.1 = true :=
+  ⟨2, fun x y => ((x : Rat) + 1) * ((y : Rat) + 1), fun k => k == 0, 1, 2, 1 / 1000, fun _ => 1, fun _ => 7, true, 10,
+   fun _ _ => mul_comm _ _, kernelPSD_rank1 (fun x => (x : Rat) + 1), by norm_num, by norm_num,
+   fun _ _ => by norm_num, by norm_num, by decide +kernel, by decide +kernel⟩
+
+/-- `csvm_bias_returned_optimal_partial`, `csvm_bias_warm_returned_optimal_partial` -/
+example : ∃ (n : Nat) (K : Nat → Nat → Rat) (y : Nat → Bool) (Cn Cp eps : Rat) (w a1 : Nat → Rat) (sh : Bool)
+    (maxIter : Nat),
+    (∀ x y, K x y = K y x) ∧ KernelPSD K ∧ 0 ≤ Cn ∧ 0 ≤ Cp ∧ (∀ k, k < n → 0 ≤ w k) ∧ 0 < eps ∧
+    (∀ t, t ∈ C08.passStates 1 eps maxIter (csvmInit2 n K y Cn Cp w true sh) 0 → SentinelOK t) ∧
+    (train2 n K y Cn Cp w eps true sh maxIter).2.1 = true ∧
+    (anyClip (csvmInit2 n K y Cn Cp w true sh) a1 ∨ rsum a1 n = 0) ∧
+    (∀ t, t ∈ C08.passStates 1 eps maxIter ((csvmInit2 n K y Cn Cp w true sh).setInitialSolution
+        (warmStartVector (csvmInit2 n K y Cn Cp w true sh) a1 true)) 0 → SentinelOK t) ∧
+    (train2Warm n K y Cn Cp w eps true sh maxIter a1).2.1 = true :=
+  ⟨2, fun x y => ((x : Rat) + 1) * ((y : Rat) + 1), fun k => k == 0, 1, 2, 1 / 1000, fun _ => 1, fun _ => 7, true, 10,
+   fun _ _ => mul_comm _ _, kernelPSD_rank1 (fun x => (x : Rat) + 1), by norm_num, by norm_num,
+   fun _ _ => by norm_num, by norm_num, by unfold SentinelOK; decide +kernel, by decide +kernel,
+   Or.inl ⟨0, by decide, by decide +kernel⟩, by unfold SentinelOK; decide +kernel, by decide +kernel⟩
+
+/-- `eps_regression_returned_partial` -/
+example : ∃ (n : Nat) (K : Nat → Nat → Rat) (y : Nat → Rat) (C tube eps : Rat) (sh : Bool) (fuel : Nat),
+    (∀ x y, K x y = K y x) ∧ KernelPSD K ∧ 0 < C ∧ 0 < eps ∧
+    (∀ t, t ∈ C08.passStates 1 eps fuel (epsInit n K y C tube sh) 0 → SentinelOK t) ∧
+    (solve 1 eps fuel (epsInit n K y C tube sh) 0 0).2.1 = true :=
+  ⟨2, fun x y => ((x : Rat) + 1) * ((y : Rat) + 1), fun k => (k : Rat), 1, 1 / 10, 1 / 1000, true, 40,
+   fun _ _ => mul_comm _ _, kernelPSD_rank1 (fun x => (x : Rat) + 1), by norm_num, by norm_num,
+   by unfold SentinelOK; decide +kernel, by decide +kernel⟩
+
+/-- `oneclass_returned_partial` -/
+example : ∃ (n : Nat) (K : Nat → Nat → Rat) (nu eps : Rat) (sh : Bool) (fuel : Nat),
+    (∀ x y, K x y = K y x) ∧ KernelPSD K ∧ 0 < n ∧ 0 < nu ∧ nu < 1 ∧ 0 < eps ∧
+    (∀ t, t ∈ C08.passStates 1 eps fuel (oneClassInit n K nu (n : Rat) sh) 0 → SentinelOK t) ∧
+    (solve 1 eps fuel (oneClassInit n K nu (n : Rat) sh) 0 0).2.1 = true :=
+  ⟨2, fun x y => ((x : Rat) + 1) * ((y : Rat) + 1), 1 / 2, 1 / 1000, true, 40,
+   fun _ _ => mul_comm _ _, kernelPSD_rank1 (fun x => (x : Rat) + 1), by decide, by norm_num, by norm_num,
+   by norm_num, by unfold SentinelOK; decide +kernel, by decide +kernel⟩
+
+end Returned
 
 end SharkVerif.C07
